@@ -245,12 +245,13 @@ def run(ck):
                 dis.append(dict(why='Medium.impedance %r vs model %r' % (z, zm)))
         # (ii) far field with directions whose reflection points straddle the boundaries
         why, mx = farlib.compare(d, m, THETAS + [88.0], PHIS)
-        if why:
-            dis.append(dict(ant=ant, src_seed=ss, media_seed=ms_seed, why=why))
-            continue
+        # the property on the implementation is evaluated whether or not the tie holds: a disagreement with the model is a
+        # violation only together with a failing input
         bad = property_on_impl(ant, ss, random.Random(ms_seed))
         if bad:
-            viol.append(dict(kind='ground', ant=ant, src_seed=ss, media_seed=ms_seed, observed=bad))
+            viol.append(dict(kind='ground', ant=ant, src_seed=ss, media_seed=ms_seed, observed=bad, disagreement=why))
+        elif why:
+            dis.append(dict(ant=ant, src_seed=ss, media_seed=ms_seed, why=why))
     ck.stats['disagreements'] = len(dis)
     ck.cov['rule'] = ('antennas over ground (monopoles, top-loaded, elevated dipoles, vees, arrays), 1-4 media with permittivity 1..80, '
                       'conductivity 1e-4..10, linear / circular boundaries at random positions, radials in 30 %; compared: far field '
